@@ -25,11 +25,12 @@ V == INSTANCE Votor WITH VMaxSlot <- MaxSlot
 
 Rec == ndJsonDeserialize(IOEnv.TRACE)
 
-VARIABLES pool, votor, chan, l, bad
-tnvars == <<pool, votor, chan, l, bad>>
+VARIABLES pool, votor, chan, l, bad,
+          my      \* every vote the node has put on the wire so far: [k, s, h]
+tnvars == <<pool, votor, chan, l, bad, my>>
 
 Init ==
-  /\ pool = P!EmptyPool /\ votor = V!InitVotor /\ chan = <<>> /\ l = 1 /\ bad = FALSE
+  /\ pool = P!EmptyPool /\ votor = V!InitVotor /\ chan = <<>> /\ l = 1 /\ bad = FALSE /\ my = {}
 
 St == Rec[l]
 Range(f) == {f[i] : i \in DOMAIN f}
@@ -92,8 +93,8 @@ PoolCommit(r, accepted) ==
   THEN /\ pool' = r.p
        \* the channel carries the events in the order the code sent them
        /\ chan' = chan \o St.ev
-       /\ l' = l + 1 /\ UNCHANGED <<votor, bad>>
-  ELSE /\ Diag("pool", r) /\ bad' = TRUE /\ UNCHANGED <<pool, votor, chan, l>>
+       /\ l' = l + 1 /\ UNCHANGED <<votor, bad, my>>
+  ELSE /\ Diag("pool", r) /\ bad' = TRUE /\ UNCHANGED <<pool, votor, chan, l, my>>
 
 TPVote == St.op = "pvote" /\ PoolCommit(P!AddVote(pool, St.vt), St.counted)
 TPCert == St.op = "pcert" /\ PoolCommit(P!AddCert(pool, St.c), St.accepted)
@@ -108,10 +109,10 @@ BundleMatches ==
 TPStandstill ==
   /\ St.op = "pstandstill"
   /\ IF BundleMatches
-     THEN chan' = Append(chan, St.ev) /\ l' = l + 1 /\ UNCHANGED <<pool, votor, bad>>
+     THEN chan' = Append(chan, St.ev) /\ l' = l + 1 /\ UNCHANGED <<pool, votor, bad, my>>
      ELSE /\ PrintT(<<"MISMATCH", ToJson([index |-> l, step |-> St, what |-> "standstill",
                                            spec |-> P!StandstillBundle(pool)])>>)
-          /\ bad' = TRUE /\ UNCHANGED <<pool, votor, chan, l>>
+          /\ bad' = TRUE /\ UNCHANGED <<pool, votor, chan, l, my>>
 
 ---------------------------------------------------------------------------
 (* Votor side *)
@@ -128,10 +129,12 @@ OwnSigner == \A i \in DOMAIN St.msgs : St.msgs[i].t = "vote" => St.msgs[i].v = O
 
 VotorCommit(o, c2, extra) ==
   IF SameBag(o.out, LoggedMsgs) /\ OwnSigner /\ extra
-  THEN votor' = o.v /\ chan' = c2 /\ l' = l + 1 /\ UNCHANGED <<pool, bad>>
+  THEN /\ votor' = o.v /\ chan' = c2 /\ l' = l + 1 /\ UNCHANGED <<pool, bad>>
+       /\ my' = my \cup {[k |-> St.msgs[i].k, s |-> St.msgs[i].s, h |-> St.msgs[i].h] :
+                             i \in {j \in DOMAIN St.msgs : St.msgs[j].t = "vote"}}
   ELSE /\ PrintT(<<"MISMATCH", ToJson([index |-> l, step |-> St, what |-> "votor",
                                         spec |-> [out |-> o.out, head |-> IF chan = <<>> THEN <<>> ELSE <<Head(chan)>>]])>>)
-       /\ bad' = TRUE /\ UNCHANGED <<pool, votor, chan, l>>
+       /\ bad' = TRUE /\ UNCHANGED <<pool, votor, chan, l, my>>
 
 \* the event Votor handles is the head of the FIFO channel from its pool
 TVPool ==
@@ -150,8 +153,21 @@ Next ==
 ---------------------------------------------------------------------------
 NoMismatch == ~bad
 
-(* C05 / C04 on the observed execution: the node's own votes, as its pool accepted them *)
-MyVotes == {x \in pool.votes : x.v = Own}
+(* C05 on the observed execution: the votes the node broadcast, whatever universe the execution reached *)
+Of(k, s) == {m \in my : m.k = k /\ m.s = s}
+VotedSlots == {m.s : m \in my}
+OneInitialVote == \A s \in VotedSlots : Cardinality(Of("notar", s) \cup Of("skip", s)) <= 1
+NoFinalInBadSlot ==
+  \A s \in VotedSlots : Of("final", s) # {} => (Of("skip", s) = {} /\ Of("sf", s) = {} /\ Of("nf", s) = {})
+FinalOnlyForOwnNotar == \A s \in VotedSlots : Of("final", s) # {} => Of("notar", s) # {}
+FallbackOnlyAfterVoted ==
+  \A s \in VotedSlots : (Of("nf", s) # {} \/ Of("sf", s) # {}) => (Of("notar", s) # {} \/ Of("skip", s) # {})
+NoNfForOwnNotar == \A m \in my : m.k = "nf" => [k |-> "notar", s |-> m.s, h |-> m.h] \notin my
+\* ... and the node's own pool never refused one of them as slashable
+OwnNeverSlashable ==
+  (l > 1 /\ ~bad /\ Rec[l - 1].op = "pvote" /\ Rec[l - 1].vt.v = Own) =>
+     (Rec[l - 1].counted \/ Rec[l - 1].vt \in pool.votes \/ P!OutOfBounds(pool, Rec[l - 1].vt.s)
+      \/ \E x \in pool.votes : x.v = Own /\ x.s = Rec[l - 1].vt.s)
 
 TraceAccepted ==
   LET d == TLCGet("stats").diameter IN
